@@ -71,9 +71,11 @@ TreeCases ==
 
 \* "every time, within one process": the same source rendered after a success, after a failure that had already produced
 \* output, after a failure at its very start - every arrangement of up to four renders over these sources
-Goods == {"@dump(1)x", "@dump([1, 2])",
+Goods == {"{{ x = 1 }}{{ x }}", "{{ x = \"s\" }}{{ x }}", "@each(x in [1.5]){{ x }}@end",
+          "@dump(1)x", "@dump([1, 2])",
           "x{{ 1 }}y", "{{ " \o Obj(3, Num) \o " }}", "@each(v in [1, 2])<{{ v }}>@end"}
-Fails == {"@dump(1){{ zz }}", "@dump({a: 1})@if(true){{ 1 / 0 }}@end",
+Fails == {"{{ x }}", "{{ y = 2 }}{{ x }}",
+          "@dump(1){{ zz }}", "@dump({a: 1})@if(true){{ 1 / 0 }}@end",
           "partial {{ 1 }}{{ zz }}", "@each(v in [1, 2])p{{ v }}{{ 1 / (v - 2) }}@end", "head@if(true)in{{ 1 + \"s\" }}@end", "{{ zz }}never"}
 Srcs == Goods \cup Fails
 SeqCases == {[kind |-> "seq", steps |-> <<a, b, c>>, tags |-> <<"c14", "sequence">>] : a \in Srcs, b \in Fails, c \in Srcs}
